@@ -41,7 +41,7 @@ impl<'a> Gen<'a> {
 
     fn binder(&mut self, cx: &Cx, ty: &Ty, cns: bool, kind: BK, avoid: &[String]) -> String {
         let reserved: Option<String> = { let d = &self.defs[self.st.idx]; d.fuel.map(|i| d.params[i].name.clone()) };
-        let ok = |n: &str| !avoid.iter().any(|a| a == n) && reserved.as_deref() != Some(n);
+        let ok = |n: &str| !avoid.iter().any(|a| a == n) && reserved.as_deref() != Some(n) && !is_keyword(n);
         if self.cfg.shadowing && !cx.env.is_empty() && self.rng.chance(1, 4) {
             let b = cx.env[self.rng.below(cx.env.len())].clone();
             if ok(&b.name) {
@@ -353,13 +353,7 @@ impl<'a> Gen<'a> {
                 self.helper_call(&ccx, ty)
             } else {
                 let b = self.term(&ccx, &ret, s[i]);
-                if !self.preinstantiated(&ret) {
-                    if self.cfg.avoid_instance_order_bug {
-                        self.feat("new_clause_let_wrapped_for_checker");
-                        let v = self.binder(&ccx, &ret, false, BK::Let, &[]);
-                        Tm::Let(v.clone(), ret.clone(), bx(b), bx(Tm::Var(v)))
-                    } else { self.feat("new_clause_result_type_maybe_uninstantiated"); b }
-                } else { b }
+                self.wrap_for_checker(&ccx, &ret, b)
             };
             clauses.push(Clause { xtor: x.name.clone(), binders, body });
         }
@@ -432,7 +426,10 @@ impl<'a> Gen<'a> {
         if cx.in_new { self.feat("goto_inside_new"); }
         if self.defs[self.st.idx].params.iter().any(|p| p.cns && p.name == k.name) { self.feat("goto_covariable_param"); }
         if k.ty != Ty::Int { self.feat("goto_at_object_type"); }
-        let arg = self.term(&self.cond_cx(cx), &k.ty, size - 1);
+        let gcx = self.cond_cx(cx);
+        let arg = self.term(&gcx, &k.ty, size - 1);
+        // the checker does not instantiate the type of a covariable bound by a pattern
+        let arg = self.wrap_for_checker(&gcx, &k.ty, arg);
         Some(Tm::Goto(k.name, bx(arg)))
     }
 
@@ -512,6 +509,10 @@ impl<'a> Gen<'a> {
             }
         }
     }
+}
+
+pub fn is_keyword(n: &str) -> bool {
+    matches!(n, "i64" | "label" | "goto" | "exit" | "if" | "else" | "print_i64" | "println_i64" | "let" | "case" | "new" | "def" | "data" | "codata")
 }
 
 /// syntactic occurrence of `goto name` (ignores shadowing; only used for the feature log)
